@@ -64,6 +64,10 @@ def amp_loops(fi):
             e2 = copy.copy(e)
             e2.args = [resolve(a, depth) for a in e.args]
             return e2
+        if isinstance(e, ast.Subscript):
+            e2 = copy.copy(e)
+            e2.value = resolve(e.value, depth)
+            return e2
         return e
 
     for n in ast.walk(fi.node):
@@ -92,7 +96,11 @@ def amp_loops(fi):
             start = ast.Constant(single[idx].value + 1)
         pairs = isinstance(it, ast.Call) and (dotted(it.func) or "").endswith("iterate_in_pairs")
         amps = [x.id for x in ast.walk(inner_t) if isinstance(x, ast.Name)]
-        out.append(AmpLoop(n, idx, amps, start, pairs))
+        lp_ = AmpLoop(n, idx, amps, start, pairs)
+        # the sequence whose positions number the modes
+        seq = it.args[0] if pairs and it.args else it
+        lp_.seq = seq
+        out.append(lp_)
     return out
 
 
@@ -170,6 +178,12 @@ def check_accum(ctx: Ctx, fi):
             ctx.info("ACCUM", site, (fi, lp.node), "loop has no accumulator used after it")
         # ORIGIN
         if lp.idx is not None:
+            seq = getattr(lp, "seq", None)
+            if seq is not None and isinstance(seq, (ast.Subscript, ast.Call, ast.ListComp, ast.GeneratorExp)) and not (isinstance(seq, ast.Subscript) and isinstance(seq.slice, ast.Slice)
+                                                                                                                      and seq.slice.lower is None and seq.slice.upper is None and seq.slice.step is None):
+                ctx.violate("ORIGIN", site, (fi, lp.node), f"the modes are numbered by their position in `{U(seq)[:60]}`, a filtered / re-ordered copy of the amplitude vector: an amplitude that follows a "
+                            "skipped entry is paired with the basis function of an earlier mode (amplitudes [0, 0.3] deform the droplet like mode 1 instead of mode 2)")
+                continue
             ok = isinstance(lp.start, ast.Constant) and lp.start.value == 1
             ctx.decide(ok, "ORIGIN", site, (fi, lp.node), "mode index starts at 1 (zero-th mode skipped)",
                        f"mode index starts at {U(lp.start)}: the basis function of mode k is paired with the amplitude of another mode")
@@ -522,7 +536,8 @@ def check_unitvec(ctx: Ctx, cname: str):
         return
     # centre + pos
     if not (isinstance(ex, ast.BinOp) and isinstance(ex.op, ast.Add)):
-        ctx.undecided("UNITVEC", site, (fi, rets[0]), f"return is not centre + offset: {U(ex)[:80]}")
+        ctx.violate("UNITVEC", site, (fi, rets[0]), f"the returned points `{U(ex)[:70]}` are not the centre plus distance × direction (self.position[None, :] + offsets): points on the interface "
+                    "(and the triangulation built from them) are displaced unless every coordinate of the centre is added to every point")
         return
     sides = [ex.left, ex.right]
     centre = [s for s in sides if "self.position" in U(s) and "interface_distance" not in U(s)]
@@ -1102,6 +1117,62 @@ def check_triangulation(ctx: Ctx):
 
 
 # --------------------------------------------------------------------------- main
+def check_volume_approx(ctx: Ctx):
+    """To first order the volume of every perturbed class is the volume of the unperturbed sphere: the amplitude vectors do
+    not contain the isotropic mode and every other basis function averages to zero, so every linear coefficient vanishes.
+    The returned value, on every path, equals V_d(R) in exact normal form (π R², 4π R³/3)."""
+    from ..algebra import Converter, Expr, NotAlgebraic, PI
+    from ..astutil import symbolic_paths, ifexp_cases
+    from fractions import Fraction
+
+    m = ctx.model
+    n = 0
+    R = Expr.atom("self.radius")
+    pi = Expr.atom(PI)
+    want = {2: pi * R.power(2), 3: pi * R.power(3) * Expr.const(Fraction(4, 3))}
+
+    def hook(cv, call, name):
+        if (name or "").split(".")[-1] == "volume_from_radius" and len(call.args) == 2:
+            try:
+                d = int(ast.literal_eval(call.args[1]))
+            except Exception:
+                return None
+            r = cv.conv(call.args[0])
+            return {1: r * Expr.const(2), 2: pi * r.power(2), 3: pi * r.power(3) * Expr.const(Fraction(4, 3))}.get(d)
+        return None
+
+    for cname in CLASSES:
+        ci = m.cls(cname)
+        dimv = ci.attrs.get("dim")
+        if not (isinstance(dimv, ast.Constant) and dimv.value in want):
+            continue
+        for fi in ci.methods.get("volume_approx", []):
+            if fi.kind == "setter":
+                continue
+            fv = view(m, fi)
+            bad = None
+            k = 0
+            for rn in fv.return_nodes():
+                if rn.stmt.value is None:
+                    continue
+                for _dec, (val,) in symbolic_paths(fv, rn.stmt, [rn.stmt.value]):
+                    for _c, v in ifexp_cases(val):
+                        k += 1
+                        try:
+                            e = Converter(call_hook=hook, resolve_dotted=lambda s_: m.resolve(fv.mod, s_) or s_).conv(v)
+                        except NotAlgebraic as exc:
+                            bad = bad or (rn.stmt, f"`{U(v)[:70]}` ({exc})")
+                            continue
+                        if e != want[dimv.value]:
+                            bad = bad or (rn.stmt, f"`{U(v)[:70]}` = {e.show()[:80]}")
+            n += 1
+            ctx.decide(bad is None and k > 0, "COEFF", f"{fi.qualname}:first-order", (fi, bad[0]) if bad else fi,
+                       f"first-order volume = volume of the unperturbed {dimv.value}-d sphere ({want[dimv.value].show()}): no linear term in the amplitudes",
+                       f"volume_approx returns {bad[1] if bad else 'nothing'}, not {want[dimv.value].show()}: every linear coefficient of the volume vanishes (the isotropic mode is not part of `amplitudes`, "
+                       "amplitudes[0] is the first non-isotropic mode), so any other first-order term is spurious")
+    return n
+
+
 def check(ctx: Ctx):
     m = ctx.model
     ctx.explain(
@@ -1134,6 +1205,7 @@ def check(ctx: Ctx):
     check_deriv_2d(ctx)
     check_volume_2d(ctx)
     check_volume_3d(ctx)
+    check_volume_approx(ctx)
     check_pairs(ctx)
     from ..rules import render as _render
 
@@ -1145,7 +1217,7 @@ def check(ctx: Ctx):
     ctx.expect("ACCUM", 7)
     ctx.expect("ORIGIN", 8)
     ctx.expect("GUARD", 7)
-    ctx.expect("COEFF", 13)
+    ctx.expect("COEFF", 16)
     ctx.expect("DIM", 12)
     ctx.expect("COMPLETE", 9)
     ctx.expect("UNITVEC", 6)
